@@ -383,4 +383,59 @@ theorem outerLoop_ne_panic (tags : Bytes) :
 theorem decodeTags_total (tags : Bytes) : decodeTags tags ≠ .panic :=
   outerLoop_ne_panic tags (tags.length + 1) 0 [] (by omega) (by omega)
 
+/- OPEN: decodeTags_groupConcat —
+     theorem decodeTags_groupConcat (ts : List EncTag) : decodeTags (groupConcat ts) = .ok ts
+   (`decode_tags` parses exactly what `GROUP_CONCAT(plaintext || ':' || HEX(name) || ':' || HEX(value))` produces, for any tag
+   list including empty names / values and the empty list).  Not proved in the time budget: it needs an invariant for
+   `innerLoop` over `pre ++ hexUpper name ++ 0x3A :: hexUpper value ++ rest` (no ',' / ':' among upper-case hex digits,
+   `hexDecode (hexUpper b) = some b`) on top of the index invariant of `innerLoop_spec`.  Evidence in its place: `decide`-checked
+   instances in Props/C03.lean (empty names, empty values, no tags), and every `fetch` / `scan` of the correspondence run goes
+   through the real `decode_tags` on real `GROUP_CONCAT` output (records with 0..3 tags incl. empty names / values: 100 % agreement).
+   `decodeTags_total` (no panic for ANY bytes) is proved above. -/
+
+/-! ### the toy AEAD satisfies the hypotheses (non-vacuity) -/
+
+theorem toyTag_length (k n a m : Bytes) : (toyTag k n a m).length = 16 := by simp [toyTag]
+
+theorem toy_dec_enc (k n a m : Bytes) : toyAead.dec k n a (toyAead.enc k n a m) = some m := by
+  simp only [toyAead]
+  have hl : (m ++ toyTag k n a m).length = m.length + 16 := by simp [toyTag_length]
+  have h1 : ¬ (m ++ toyTag k n a m).length < 16 := by omega
+  have h2 : (m ++ toyTag k n a m).length - 16 = m.length := by omega
+  simp only [h1, if_false, h2, List.take_left', List.drop_left', if_true]
+
+theorem toy_auth (k n a ct m : Bytes) (h : toyAead.dec k n a ct = some m) : ct = toyAead.enc k n a m := by
+  simp only [toyAead] at h ⊢
+  by_cases h1 : ct.length < 16
+  · simp [h1] at h
+  · simp only [h1, if_false] at h
+    split at h
+    · rename_i hd
+      injection h with h
+      subst h
+      rw [← hd, List.take_append_drop]
+    · simp at h
+
+theorem toy_ideal : IdealAead toyAead :=
+  ⟨fun k n a m => by simp [toyAead, toyTag_length], toy_dec_enc, toy_auth⟩
+
+/-- one-byte keys are separated by the toy AEAD (the tag starts with the key byte) -/
+theorem toy_separated : KeySeparatedOn toyAead (fun k => k.length = 1) := by
+  intro k k' n a m hk hk' hne
+  cases hd : toyAead.dec k' n a (toyAead.enc k n a m) with
+  | none => rfl
+  | some m' =>
+    exfalso
+    have h := toy_auth k' n a _ m' hd
+    simp only [toyAead] at h
+    have hlen : m.length = m'.length := by
+      have := congrArg List.length h
+      simp [toyTag_length] at this
+      exact this
+    have h2 := (List.append_inj h hlen).2
+    simp only [toyTag, List.cons.injEq] at h2
+    apply hne
+    match k, k', hk, hk' with
+    | [x], [y], _, _ => simp at h2; rw [h2.1]
+
 end Askar.Decrypt.Lemmas
